@@ -131,6 +131,17 @@ func execCases(casesPath, outPath, propsPath, statsPath string) error {
 		return err
 	}
 	results := make([]Result, len(cs))
+	// journal of started / finished cases: if a library goroutine panics the whole process dies,
+	// and the driver finds the in-flight cases here
+	jf, _ := os.Create(outPath + ".journal")
+	var jmu sync.Mutex
+	journal := func(tag string, i int) {
+		if jf != nil {
+			jmu.Lock()
+			fmt.Fprintf(jf, "%s %d\n", tag, i)
+			jmu.Unlock()
+		}
+	}
 	// group by engine parallelism
 	var wg sync.WaitGroup
 	sems := map[string]chan struct{}{}
@@ -153,7 +164,9 @@ func execCases(casesPath, outPath, propsPath, statsPath string) error {
 		go func(i int, e Engine) {
 			defer wg.Done()
 			defer func() { <-sem }()
+			journal("S", i)
 			results[i] = safeExec(e, cs[i].fields)
+			journal("E", i)
 		}(i, e)
 	}
 	wg.Wait()
